@@ -45,6 +45,10 @@ def cases(tier, seed):
     out = []
     for i in range(n):
         out.append({"seed": seed * 7919 + i * 13 + 1})
+    # engine R: the same scheduler and the same reference monitor, but inside a real Tuner.run on the scripted-process
+    # LocalBackend (results arrive in polled batches, a STOP cuts the rest of the batch, jobs fail / end by themselves)
+    for i in range(400 if tier == "quick" else 8000):
+        out.append({"engine": "R", "seed": seed * 7919 + i * 13 + 7})
     return out
 
 
@@ -66,6 +70,8 @@ def floors(tier):
         "rung_levels_checked": 500 * k,
         "schedules_with_sparse_reporters": 500 * k,
         "decided:skipped_rung_level": 300 * k,
+        "R:runs": 300 * k,
+        "R:decided:rung_n>=2": 3000 * k,
     }
 
 
@@ -147,9 +153,97 @@ class Monitor:
                           {"level": level, "bracket": b, "own_levels": self.ref.own_levels(b)})
 
 
+class _T:
+    __slots__ = ("trial_id", "stride")
+
+    def __init__(self, trial_id):
+        self.trial_id, self.stride = trial_id, 1
+
+
+class _VT:
+    p = {"resource_attr": "epoch", "metric": "loss"}
+
+
+def run_engine_r(spec):
+    """Real Tuner + scripted-process backend; the decisions recorded at the scheduler boundary are replayed into the
+    same reference monitor."""
+    from stv import simrun
+    from stv.contracts import rung_contract
+
+    o = Obs()
+    rng = random.Random(spec["seed"])
+    p = gen.hyperband_params(rng, ["stopping"])
+    while p["max_t"] > 30:  # scripted processes emit every level: keep runs short
+        p = gen.hyperband_params(rng, ["stopping"])
+    p["curves"] = rng.choice(["continuous", "continuous", "ties", "crossing"])
+    p["space"] = gen.small_space(rng, ensure_infinite=True, ordinal_kinds=("equal",))
+    p.update({k: v for k, v in spec.items() if k not in ("seed", "engine") and not k.startswith("_")})
+    space = gen.build_space(p["space"])
+    o.count("R:runs")
+    try:
+        sched = gen.build_hyperband(space, p, seed=spec["seed"] % (2**31))
+    except Exception as e:  # noqa: BLE001
+        o.violate("construction", "constructor_raised:" + type(e).__name__, {"error": repr(e)[:300]})
+        return o.result()
+    ref_levels = gen.ref_rung_levels(p)
+    if list(sched.rung_levels) != ref_levels:
+        o.violate("rung_levels", "rung_levels_differ_from_documented_formula", {"got": list(sched.rung_levels), "ref": ref_levels})
+        return o.result()
+    ref = RefStopping(ref_levels, p["max_t"], p["mode"], p["brackets"], p["rung_system_per_bracket"])
+    brackets = {}
+    term = sched.terminator
+    orig_add = term.on_task_add
+
+    def on_task_add(trial_id, **kwargs):
+        brackets[str(trial_id)] = kwargs.get("bracket")
+        return orig_add(trial_id, **kwargs)
+
+    term.on_task_add = on_task_add
+    pp = {"kind": "hb_stopping", "mode": p["mode"], "n_workers": rng.randint(1, 6), "max_t": p["max_t"], "use_mra": False,
+          "checkpointing": False, "delete_checkpoints": False,
+          "plan": {"burst": rng.choice([1, 2, 3, 5]), "late_max": rng.randint(0, 2), "exit_lag_max": rng.randint(0, 2)},
+          "stop": {"max_num_trials_started": rng.randint(8, 40)}, "sjwd": True, "async": rng.random() < 0.85,
+          "wait": rng.random() < 0.3, "space": p["space"], "curves": p["curves"]}
+    if rng.random() < 0.2:
+        pp["plan"]["fail"] = {f"{rng.randint(0, 10)}:0": rng.randint(0, 3) for _ in range(rng.randint(1, 3))}
+    r = simrun.ProcRun(pp, spec["seed"], scheduler=sched)
+    with rung_contract(o):
+        r.run()
+    r.cleanup()
+    if r.exc is not None:
+        if type(r.exc).__name__ == "LoopBoundExceeded":
+            o.inconclusive("loop_bound")
+        else:
+            o.violate("no_raise", f"R:tuner_run_raised:{type(r.exc).__name__}", {"error": repr(r.exc)[:300]})
+    sub = Obs()
+    mon = Monitor(sub, dict(p), sched, ref, brackets)
+    vt = _VT()
+    pending = None
+    for idx, k, pl in r.rec.events:
+        if k == "c.tuning_end":
+            break
+        if k == "s.on_trial_result.call":
+            pending = (pl["trial_id"], dict(pl["result"]))
+        elif k == "s.on_trial_result.ret" and pending is not None and pending[0] == pl["trial_id"]:
+            mon.post_result(vt, _T(pl["trial_id"]), pending[1], pl["ret"])
+            pending = None
+    for name, v in sub.counters.items():
+        o.count("R:" + name, v)
+    for v in sub.violations:
+        o.violate(v["clause"], "R:" + v["mechanism"], v["detail"])
+    for reason in sub.inconc:
+        o.inconclusive(reason)
+    o.set_sig(("R", mon.sig), nontrivial=len(mon.sig) > 0)
+    o.sample = {"engine": "R", "params": {k: p.get(k) for k in ("type", "mode", "grace_period", "reduction_factor", "rung_increment", "rung_levels", "max_t", "brackets", "rung_system_per_bracket", "curves")},
+                "n_workers": pp["n_workers"], "plan": pp["plan"], "rung_decisions": mon.sig[:12]}
+    return o.result()
+
+
 def run_case(spec):
     from stv.contracts import rung_contract
 
+    if spec.get("engine") == "R":
+        return run_engine_r(spec)
     o = Obs()
     p = expand(spec)
     space = gen.build_space(p["space"])
